@@ -207,3 +207,31 @@ func VfRangeWitness() {
 	_, _, _, _ = ParseGetObjectRange(size, "bytes="+h)
 	zzvf.Fail("witness")
 }
+
+// VfCopySourceRange: C08 – x-amz-copy-source-range "bytes=first-last" (both required by S3; the gateway also takes
+// "bytes=first-"): the bytes copied are exactly [first, last] inside the source, anything else is refused.
+func VfCopySourceRange() {
+	nd, np := 4, 2
+	zzvf.Bound("symbolic_digits_max", nd)
+	size := zzvf.Int64("size")
+	zzvf.Assume(size >= 0)
+	a := vfNumber("first", nd, np)
+	b := vfNumber("last", nd, np)
+	start, length, err := ParseCopySourceRange(size, "bytes="+a+"-"+b)
+	zzvf.Assume(a != "")
+	fv, ffits := vfParseNum(a)
+	if err != nil {
+		zzvf.Reach("refused")
+		return
+	}
+	zzvf.Reach("accepted")
+	zzvf.Assert(ffits, "accepted-range-has-representable-first")
+	zzvf.Assert(start == fv, "copy-range-start")
+	zzvf.Assert(zzvf.And(start >= 0, length >= 0, start <= size-length), "copied-bytes-lie-inside-the-source")
+	if b == "" {
+		zzvf.Assert(length == size-fv, "open-ended-range-copies-to-the-end")
+	} else {
+		lv, lfits := vfParseNum(b)
+		zzvf.Assert(zzvf.And(lfits, length == lv-fv+1), "closed-range-length")
+	}
+}
